@@ -333,6 +333,15 @@ class Polarization(BaseState):
         self.expansion_level = ExpansionLevel.Label
         if destructive:
             self._set_measured()
+
+        # By default the other member of the envelope is measured as well
+        if self.envelope is not None and not separate_measurement:
+            if not self.envelope.fock.measured:
+                out = self.envelope.fock.measure(
+                    separate_measurement=True, destructive=destructive
+                )
+                for m_key, m_value in out.items():
+                    results[m_key] = m_value
         return results
 
     def apply_operation(self, operation: Operation) -> None:
